@@ -77,6 +77,25 @@ func jobsFor(id, tier string) []*Job {
 	}
 	_ = wmk
 	switch id {
+	case "C04":
+		nmax := 2
+		if thorough {
+			nmax = 3
+		}
+		var lp, rp [][]int
+		for n := 1; n <= nmax; n++ {
+			for c := 0; c < 4; c++ {
+				lp = append(lp, []int{n, c, 0})
+			}
+			for c := 0; c < 3; c++ {
+				rp = append(rp, []int{n, c})
+			}
+		}
+		lp = append(lp, []int{2, 0, 1}, []int{2, 2, 1})
+		add(split(wmk("list", "zzverifw.H_C04_list", lp))...)
+		add(split(wmk("reduce", "zzverifw.H_C04_reduce", rp))...)
+		add(split(wmk("scalar", "zzverifw.H_C04_scalar", ints(0, 3)))...)
+		add(split(wmk("recv", "zzverifw.H_C04_recv", ints(0, 6)))...)
 	case "C09":
 		op := [][]int{{1, 0}, {2, 0}, {3, 0}, {2, 2}, {1, 2}}
 		mp := [][]int{{1, 0}, {2, 0}, {1, 1}}
@@ -208,6 +227,8 @@ func assumptionsFor(id string) []string {
 		"harness oracles written from the property statement and docs (DESIGN.md Appendix B)",
 	}
 	switch id {
+	case "C04":
+		return append(common, "elements are children of a prototype whose method act / comb behaves by data: raises ValueErr for a negative payload, returns nil for 0, a value otherwise — so value / nil / raise at every element position is a solver choice; elements may also be nil (lonely chains)", "reference = DESIGN.md Appendix B (C04); the lonely reduce chain is excluded as the statement says")
 	case "C09":
 		return append(common, "reference = ordered dictionary in the harness (first occurrence wins; scalar keys distinct by type + value, array keys by ==; scalar keys iterate first in insertion order)", "float keys exclude NaN and -0.0 (%{0.0: 1, -0.0: 2} keeps both keys while 0.0 == -0.0; the statement does not settle that case, so it is outside the domain rather than a finding)")
 	case "C05":
@@ -241,6 +262,15 @@ func assumptionsFor(id string) []string {
 func boundsFor(id, tier string, jobs []*Job) map[string]interface{} {
 	b := map[string]interface{}{"tier": tier}
 	switch id {
+	case "C04":
+		if tier == "thorough" {
+			b["elements"] = "arrays of 1..3 elements"
+		} else {
+			b["elements"] = "arrays of 1..2 elements"
+		}
+		b["contexts"] = "list chains @ =@ ~@ &@ (with and without a [] chain argument), reduce chains $ =$ ~$ from an initial accumulator, scalar chains . =. ~. &. ; each in property-call, literal-call and variable-call form"
+		b["payloads"] = "element payload any int in (-1000, 1000) or nil; accumulator payload any int in (-1000, 1000)"
+		b["receivers"] = "additionally int, str, range, obj, map, iterator, arr receivers with the total property S (three-form agreement only)"
 	case "C09":
 		if tier == "thorough" {
 			b["object_literals"] = "1..4 pairs, or 1..3 pairs + a ** of 2 pairs; every name a solver choice from {a, b, _p}"
@@ -329,6 +359,8 @@ func boundsFor(id, tier string, jobs []*Job) map[string]interface{} {
 
 func outsideFor(id string) []string {
 	switch id {
+	case "C04":
+		return []string{"lonely reduce chain &$ (excluded by the statement)", "chain arguments other than [] (obj / map digest need pair-shaped results)", "receivers whose _iter is user-defined", "more elements than the bound", "keyword arguments in chained calls"}
 	case "C09":
 		return []string{"literals larger than the bound", "object keys / nested maps as map keys", "NaN and -0.0 float keys", "printing (covered for fixed programs by C08)", "m[k] for an absent key that names one of the map's own properties"}
 	case "C05":
